@@ -61,5 +61,12 @@ UNITS = [
          props=['C18'], stubs=['l3_meta.py'], typevars={'_V': 'object'},
          field_types={'RepeatedMetaItemWrapper': {'_default_indent_getter': 'THUNK_STR'}},
          note='the filtered view (RepeatedFilteredNodeWrapper) and MetaItem are abstract (declaration-only stubs with ghost fields); the default-indent thunk is a pure ghost value'),
+    Unit('l5.cost', ['models/cost_spec.py'], 'l5_cost.py',
+         [('CostSpec', 'raw_number_per'), ('CostSpec', 'raw_number_total'), ('CostSpec', 'raw_currency'),
+          ('CostSpec', '__raw_number_per', 'setter'), ('CostSpec', '__raw_number_total', 'setter'), ('CostSpec', '__raw_currency', 'setter')],
+         props=['C09', 'C19'], stubs=['l5_cost.py'], class_bases={'CostSpec': ['CostSpecGenerated']}, builtins=['copy.deepcopy#node'],
+         field_types={'CostSpec': {'raw_compound_amount_comp': 'CompoundAmount', 'raw_amount_comp': 'Amount', 'raw_number_comp': 'NumberExpr', 'raw_currency_comp': 'Currency',
+                                   'raw_date_comp': 'Date', 'raw_label_comp': 'EscapedString', 'raw_asterisk_comp': 'Asterisk'}},
+         note='the cost component list is seen through its seven typed slots (assumed contract of unordered_node_property: at most one component per type; get/set address it); component classes are declaration-only stubs'),
     TemplateUnit('l4.templates', props=['C20', 'C11', 'C05', 'C15', 'C01', 'C03', 'C14']),
 ]
